@@ -30,7 +30,7 @@ def run(ctx):
         raise vlib.ToolError("negative control: as-built get_or_insert does not violate InsertedNeverReloaded in the model")
     ctx.add_tlc("negative control: FixGoi = FALSE (must fail: D7)", r, negative=True)
     sim = 3000 if thorough else 600
-    suite = [("W6d", 5, None, None), ("W6", 6, sim, None), ("W6c", 5, sim, None), ("W3", 6, sim // 2, None)]
+    suite = [("W6d", 5, None, None), ("W6d", 6, None, 8000, "KeepGoi"), ("W6", 6, sim, None), ("W6c", 5, sim, None), ("W3", 6, sim // 2, None)]
     if thorough:
         suite += [("W6", 5, None, 60000), ("W6d", 6, None, 60000)]
     hotcommon.run_suite(ctx, suite, hotcommon.classify_other("C10"))
